@@ -306,6 +306,8 @@ type genT struct {
 	id    int
 	notes *bufio.Writer
 	tier  string
+	nW    int // P cases seen (rotation of the consumer leg)
+	rotW  int
 }
 
 func (g *genT) emit(line, expect, what string) string {
@@ -335,7 +337,12 @@ func (g *genT) H(X, Y *big.Int, hash []byte, r, s *big.Int, expect, what string)
 func (g *genT) P(X, Y *big.Int, msg, sig []byte, expect, what string) {
 	g.emit(fmt.Sprintf("P %d %s %s %s %s", g.next(), zs(X), zs(Y), hx.Hex(msg), hx.Hex(sig)), expect, what)
 	// the consumers named by the property's anchors must decide exactly like the strict verifier
-	for _, kind := range []string{"s", "e", "x"} {
+	// (thorough: all three consumers; quick: two of them per case, rotating from a seed-dependent start)
+	g.nW++
+	for j, kind := range []string{"s", "e", "x"} {
+		if g.tier != "thorough" && (g.nW+g.rotW)%3 == j {
+			continue
+		}
 		g.emit(fmt.Sprintf("W %d %s %s %s %s %s", g.next(), kind, zs(X), zs(Y), hx.Hex(msg), hx.Hex(sig)), expect, what+" via consumer "+kind)
 	}
 }
@@ -368,11 +375,33 @@ func (g *genT) uid(class int) ([]byte, string) {
 		return g.r.Bytes(8191), "uid=8191"
 	case 5:
 		return g.r.Bytes(8192), "uid=8192"
-	default:
+	case 6:
 		return g.r.Bytes(8193), "uid=8193"
+	default:
+		n := g.uidSpreadLen()
+		return g.r.Bytes(n), fmt.Sprintf("uid=%d", n)
 	}
 }
-func (g *genT) uidNormal() ([]byte, string) { return g.uid(g.r.Pick([]int{0, 1, 3, 3})) }
+
+// lengths between the named classes: 2..15, 17..64, powers of two and their neighbours up to 8190, anything else below 8191
+func (g *genT) uidSpreadLen() int {
+	switch g.r.Intn(4) {
+	case 0:
+		return 2 + g.r.Intn(14)
+	case 1:
+		return 17 + g.r.Intn(48)
+	case 2:
+		p := 1 << uint(6+g.r.Intn(7)) // 64 .. 4096
+		n := p + g.r.Intn(3) - 1
+		if g.r.Intn(6) == 0 {
+			n = 8190 - g.r.Intn(3)
+		}
+		return n
+	default:
+		return 65 + g.r.Intn(8126-65)
+	}
+}
+func (g *genT) uidNormal() ([]byte, string) { return g.uid(g.r.Pick([]int{0, 1, 3, 3, 7})) }
 
 const nRho = 11
 
@@ -710,6 +739,7 @@ func (g *genT) catalogueP(b baseT, all bool) {
 
 func gen(seed uint64, tier string, o *hx.Out) {
 	g := &genT{r: hx.NewRng(seed), o: o, tier: tier}
+	g.rotW = int(seed % 3)
 	if p := os.Getenv("C01_NOTES"); p != "" {
 		f, err := os.Create(p)
 		if err != nil {
@@ -758,7 +788,9 @@ func gen(seed uint64, tier string, o *hx.Out) {
 			rho, wr := g.rhoNormal()
 			g.S(k, uid, msg, rho, "key "+k.name+" | "+wu+" "+wm+" "+wr)
 		}
-		for _, n := range msgLens {
+		// plus three lengths between 4097 and 65534 (seed-dependent)
+		midLens := []int{4097, 4098 + g.r.Intn(28000), 32768 + g.r.Intn(32766)}
+		for _, n := range append(append([]int{}, msgLens...), midLens...) {
 			if thorough && n >= 65535 && round%3 != 0 {
 				continue
 			}
@@ -768,7 +800,7 @@ func gen(seed uint64, tier string, o *hx.Out) {
 			rho, wr := g.rhoNormal()
 			g.S(k, uid, msg, rho, wm+" | "+wu+" "+wr)
 		}
-		for c := 0; c < nUID; c++ {
+		for c := 0; c < nUID+5; c++ { // classes 0..6, then five lengths of the spread
 			k := rndKey()
 			uid, wu := g.uid(c)
 			msg, wm := g.msgNormal()
@@ -809,13 +841,13 @@ func gen(seed uint64, tier string, o *hx.Out) {
 			g.G(keys[g.r.Intn(len(keys))], msg, rho, wm+" | "+wr)
 		}
 		// ---- D: Sm3Digest ----
-		for c := 0; c < nUID; c++ {
+		for c := 0; c < nUID+5; c++ {
 			k := rndKey()
 			uid, wu := g.uid(c)
 			msg, wm := g.msgNormal()
 			g.D(k.X, k.Y, uid, msg, wu+" | "+wm)
 		}
-		for _, n := range msgLens {
+		for _, n := range append(append([]int{}, msgLens...), midLens...) {
 			if thorough && n >= 65535 && round%3 != 0 {
 				continue
 			}
@@ -838,6 +870,8 @@ func gen(seed uint64, tier string, o *hx.Out) {
 	order := []int{4, 10, 11, 0, 12, 13, 2, 14, 15, 7, 16, 17, 5, 1, 3, 8, 9, 6}
 	highBit := func(x *big.Int) bool { return x.BitLen() == 256 }
 	nP := 0
+	rotP := g.r.Intn(3) // quick: which eligible bases carry the full DER catalogue
+	nElig := 0
 	for i := 0; i < nBase; i++ {
 		var k keyT
 		if i < len(order) {
@@ -856,9 +890,9 @@ func gen(seed uint64, tier string, o *hx.Out) {
 		case 1:
 			uid, wu = g.uid(1)
 		case 2:
-			uid, wu = g.uid(3)
+			uid, wu = g.uid(g.r.Pick([]int{3, 7}))
 		default:
-			uid, wu = g.uid(g.r.Pick([]int{0, 1, 2, 3}))
+			uid, wu = g.uid(g.r.Pick([]int{0, 1, 2, 3, 7, 7}))
 		}
 		msg, wm := g.msgNormal()
 		if i == 5 {
@@ -891,8 +925,9 @@ func gen(seed uint64, tier string, o *hx.Out) {
 		g.catalogueV(b, other, nflip)
 		g.catalogueH(b, thorough || i%3 == 0)
 		if uid == nil || bytes.Equal(uid, defUID) {
-			// quick: the bases with (r,s high bit), (r high bit), (s short, empty msg), (r 31 bytes with high bit)
-			if thorough || i == 0 || i == 1 || i == 5 || i == 9 {
+			// quick: four of the eligible bases (nil / default uid), rotating with the seed; thorough: all
+			nElig++
+			if thorough || ((nElig+rotP)%3 != 0 && nP < 4) {
 				g.catalogueP(b, thorough && nP < 10)
 				nP++
 			} else {
@@ -931,7 +966,7 @@ func gen(seed uint64, tier string, o *hx.Out) {
 		nBig = 3
 	}
 	for i := 0; i < nBig; i++ {
-		for _, c := range [][2]int{{65535, 1}, {65536, 3}, {100, 4}, {65536, 4}, {4096, 0}} {
+		for _, c := range [][2]int{{65535, 1}, {65536, 3}, {100, 4}, {65536, 4}, {4096, 0}, {5000 + g.r.Intn(55000), 7}} {
 			k := rndKey()
 			if c[0] == 100 {
 				k = lzk[g.r.Intn(len(lzk))]
